@@ -18,7 +18,7 @@ DECISIONS = []
 SITES = False
 ORDER = False
 
-EDITS = ["arg_nested", "arg_top", "ret_fresh", "ret_cached", "ret_file_fresh", "ret_file_cached", "list_dir", "walk_prune", "walk_entry", "kwarg"]
+EDITS = ["arg_nested", "arg_top", "ret_fresh", "ret_cached", "ret_file_fresh", "ret_file_cached", "list_dir", "walk_prune", "walk_entry", "kwarg", "kwarg_nested", "sub_kwarg_nested"]
 
 
 def scenario(root, edits, log):
@@ -39,10 +39,15 @@ def scenario(root, edits, log):
             arg[1]["k"].append(99)
         if "kwarg" in E and opt is not None:
             opt["z"] = 1
+        if "kwarg_nested" in E and opt is not None:
+            opt["y"].append(7)
         return {"file": [1, [2]]}
 
-    def sub(b, arg):
-        log.append(("sub", copy.deepcopy(arg)))
+    def sub(b, arg, sopt=None):
+        log.append(("sub", copy.deepcopy(arg), copy.deepcopy(sopt)))
+        if "sub_kwarg_nested" in E and sopt is not None:
+            sopt["names"].append("END")
+            sopt["deep"]["k"]["j"] = 2
         if "arg_top" in E:
             arg.append("edited")
         ls = b.list_dir(d)
@@ -63,7 +68,7 @@ def scenario(root, edits, log):
     results = []
     for i in range(3):
         def main(b):
-            v = b.subbuild("s", sub, ["top", {"k": [5]}])
+            v = b.subbuild("s", sub, ["top", {"k": [5]}], sopt={"names": ["a", "b"], "deep": {"k": {}}})
             snap = copy.deepcopy(v)
             if ("ret_fresh" in E and i == 0) or ("ret_cached" in E and i > 0):
                 v["v"][1].append("edited%d" % i)
